@@ -1,10 +1,182 @@
 import SpVerif.Model.Join
+import Mathlib.Data.List.Nodup
+import Mathlib.Data.List.Range
+/-!
+# C05 — spatial join returns exactly the intersecting (left, right) pairs
+
+Theorems about the join model `Join`: the pair table is exactly `{(i, j) | hit left[i] right[j]}`, each pair once; the three
+join shapes keep every pair and add exactly one unmatched row per unmatched left (resp. right) row.  `hit` is the exact
+predicate of C02 (`Geom.point*`).  pandas' `merge` is modelled relationally (trusted base, compared on every run).
+-/
 namespace SpVerif
-open Join
+open Join Geom Frames
+
 /-- a missing geometry on either side never matches -/
-theorem C05_missing_never_matches (p : Option Geom.Pt) (s : Option Frames.Elem) :
-    hit none s = false ∧ hit p none = false := by
+theorem C05_missing_never_matches (p : Option Pt) (s : Option Elem) : hit none s = false ∧ hit p none = false := by
   constructor
   · rfl
   · cases p <;> rfl
+
+/-- **the pair table is exactly the set of intersecting (left, right) positions** -/
+theorem C05_pairs_exact (left : List (Option Pt)) (right : List (Option Elem)) (i j : Nat) :
+    (i, j) ∈ pairs left right ↔ i < left.length ∧ j < right.length ∧ hit (left.getD i none) (right.getD j none) = true := by
+  unfold pairs
+  simp only [List.mem_flatMap, List.mem_range, List.mem_map, List.mem_filter, Prod.mk.injEq]
+  constructor
+  · rintro ⟨j', hj', i', ⟨hi', hh⟩, rfl, rfl⟩
+    exact ⟨hi', hj', hh⟩
+  · rintro ⟨hi, hj, hh⟩
+    exact ⟨j, hj, i, ⟨hi, hh⟩, rfl, rfl⟩
+
+/-- **no pair is duplicated** -/
+theorem C05_pairs_nodup (left : List (Option Pt)) (right : List (Option Elem)) : (pairs left right).Nodup := by
+  unfold pairs
+  rw [List.nodup_flatMap]
+  constructor
+  · intro j _
+    exact List.Nodup.map (fun a b h => by simpa using h) (List.Nodup.filter _ List.nodup_range)
+  · apply List.Pairwise.imp_of_mem _ (List.nodup_range (n := right.length))
+    intro j j' _ _ hne
+    simp only [Function.onFun, List.disjoint_left, List.mem_map, List.mem_filter, List.mem_range]
+    rintro ⟨a, b⟩ ⟨i, _, h1⟩ ⟨i', _, h2⟩
+    simp only [Prod.mk.injEq] at h1 h2
+    exact hne (h1.2.trans h2.2.symm)
+
+/-- `inner`: exactly one row per intersecting pair -/
+theorem C05_inner (left : List (Option Pt)) (right : List (Option Elem)) :
+    join .inner left right = (pairs left right).map (fun p => (some p.1, some p.2)) := by
+  simp [join]
+
+theorem filter_fst_isEmpty {ps : List (Nat × Nat)} {i : Nat} :
+    (ps.filter (fun p => p.1 == i)).isEmpty = true ↔ ∀ j, (i, j) ∉ ps := by
+  rw [List.isEmpty_iff, List.filter_eq_nil_iff]
+  constructor
+  · intro h j hj; exact h (i, j) hj (by simp)
+  · rintro h ⟨a, b⟩ hp; simp only [beq_iff_eq]; intro ha; subst ha; exact h b hp
+
+theorem filter_snd_isEmpty {ps : List (Nat × Nat)} {j : Nat} :
+    (ps.filter (fun p => p.2 == j)).isEmpty = true ↔ ∀ i, (i, j) ∉ ps := by
+  rw [List.isEmpty_iff, List.filter_eq_nil_iff]
+  constructor
+  · intro h i hi; exact h (i, j) hi (by simp)
+  · rintro h ⟨a, b⟩ hp; simp only [beq_iff_eq]; intro hb; subst hb; exact h a hp
+
+/-- `left`: the rows are exactly one row per intersecting pair plus one row `(i, missing)` for every left row without a partner -/
+theorem C05_left (left : List (Option Pt)) (right : List (Option Elem)) (x : Option Nat × Option Nat) :
+    x ∈ join .left left right ↔
+      (∃ i j, (i, j) ∈ pairs left right ∧ x = (some i, some j)) ∨
+      (∃ i, i < left.length ∧ (∀ j, (i, j) ∉ pairs left right) ∧ x = (some i, none)) := by
+  simp only [join, List.mem_flatMap, List.mem_range]
+  constructor
+  · rintro ⟨i, hi, hx⟩
+    split at hx
+    · next he => right; exact ⟨i, hi, filter_fst_isEmpty.mp he, by simpa using hx⟩
+    · next he =>
+      left
+      simp only [List.mem_map, List.mem_filter, beq_iff_eq] at hx
+      obtain ⟨⟨a, b⟩, ⟨hp, ha⟩, rfl⟩ := hx
+      simp only at ha; subst ha
+      exact ⟨a, b, hp, rfl⟩
+  · rintro (⟨i, j, hp, rfl⟩ | ⟨i, hi, hn, rfl⟩)
+    · have hi : i < left.length := ((C05_pairs_exact left right i j).mp hp).1
+      refine ⟨i, hi, ?_⟩
+      have : ¬ ((pairs left right).filter (fun p => p.1 == i)).isEmpty = true := fun he => filter_fst_isEmpty.mp he j hp
+      rw [if_neg this]
+      simp only [List.mem_map, List.mem_filter, beq_iff_eq]
+      exact ⟨(i, j), ⟨hp, rfl⟩, rfl⟩
+    · exact ⟨i, hi, by simp [filter_fst_isEmpty.mpr hn]⟩
+
+/-- `right`: one row per intersecting pair plus one row `(missing, j)` for every right row without a partner -/
+theorem C05_right (left : List (Option Pt)) (right : List (Option Elem)) (x : Option Nat × Option Nat) :
+    x ∈ join .right left right ↔
+      (∃ i j, (i, j) ∈ pairs left right ∧ x = (some i, some j)) ∨
+      (∃ j, j < right.length ∧ (∀ i, (i, j) ∉ pairs left right) ∧ x = (none, some j)) := by
+  simp only [join, List.mem_flatMap, List.mem_range]
+  constructor
+  · rintro ⟨j, hj, hx⟩
+    split at hx
+    · next he => right; exact ⟨j, hj, filter_snd_isEmpty.mp he, by simpa using hx⟩
+    · next he =>
+      left
+      simp only [List.mem_map, List.mem_filter, beq_iff_eq] at hx
+      obtain ⟨⟨a, b⟩, ⟨hp, hb⟩, rfl⟩ := hx
+      simp only at hb; subst hb
+      exact ⟨a, b, hp, rfl⟩
+  · rintro (⟨i, j, hp, rfl⟩ | ⟨j, hj, hn, rfl⟩)
+    · have hj : j < right.length := ((C05_pairs_exact left right i j).mp hp).2.1
+      refine ⟨j, hj, ?_⟩
+      have : ¬ ((pairs left right).filter (fun p => p.2 == j)).isEmpty = true := fun he => filter_snd_isEmpty.mp he i hp
+      rw [if_neg this]
+      simp only [List.mem_map, List.mem_filter, beq_iff_eq]
+      exact ⟨(i, j), ⟨hp, rfl⟩, rfl⟩
+    · exact ⟨j, hj, by simp [filter_snd_isEmpty.mpr hn]⟩
+
+/-- no row of any join shape is duplicated (each pair exactly once, each unmatched row exactly once) -/
+theorem C05_join_nodup (how : How) (left : List (Option Pt)) (right : List (Option Elem)) : (join how left right).Nodup := by
+  have hp := C05_pairs_nodup left right
+  cases how with
+  | inner =>
+    simp only [join]
+    exact List.Nodup.map (fun a b h => by
+      obtain ⟨a1, a2⟩ := a; obtain ⟨b1, b2⟩ := b; simpa using h) hp
+  | left =>
+    simp only [join]
+    rw [List.nodup_flatMap]
+    constructor
+    · intro i _
+      split
+      · simp
+      · exact List.Nodup.map (fun a b h => by
+          obtain ⟨a1, a2⟩ := a; obtain ⟨b1, b2⟩ := b; simpa using h) (List.Nodup.filter _ hp)
+    · apply List.Pairwise.imp_of_mem _ (List.nodup_range (n := left.length))
+      intro i i' _ _ hne
+      simp only [Function.onFun, List.disjoint_left]
+      intro x hx hx'
+      have e1 : x.1 = some i := by
+        split at hx
+        · simp only [List.mem_singleton] at hx; rw [hx]
+        · simp only [List.mem_map, List.mem_filter, beq_iff_eq] at hx
+          obtain ⟨⟨a, b⟩, ⟨_, ha⟩, rfl⟩ := hx
+          simp only at ha; rw [ha]
+      have e2 : x.1 = some i' := by
+        split at hx'
+        · simp only [List.mem_singleton] at hx'; rw [hx']
+        · simp only [List.mem_map, List.mem_filter, beq_iff_eq] at hx'
+          obtain ⟨⟨a, b⟩, ⟨_, ha⟩, rfl⟩ := hx'
+          simp only at ha; rw [ha]
+      rw [e1] at e2
+      exact hne (Option.some.inj e2)
+  | right =>
+    simp only [join]
+    rw [List.nodup_flatMap]
+    constructor
+    · intro j _
+      split
+      · simp
+      · exact List.Nodup.map (fun a b h => by
+          obtain ⟨a1, a2⟩ := a; obtain ⟨b1, b2⟩ := b; simpa using h) (List.Nodup.filter _ hp)
+    · apply List.Pairwise.imp_of_mem _ (List.nodup_range (n := right.length))
+      intro j j' _ _ hne
+      simp only [Function.onFun, List.disjoint_left]
+      intro x hx hx'
+      have e1 : x.2 = some j := by
+        split at hx
+        · simp only [List.mem_singleton] at hx; rw [hx]
+        · simp only [List.mem_map, List.mem_filter, beq_iff_eq] at hx
+          obtain ⟨⟨a, b⟩, ⟨_, hb⟩, rfl⟩ := hx
+          simp only at hb; rw [hb]
+      have e2 : x.2 = some j' := by
+        split at hx'
+        · simp only [List.mem_singleton] at hx'; rw [hx']
+        · simp only [List.mem_map, List.mem_filter, beq_iff_eq] at hx'
+          obtain ⟨⟨a, b⟩, ⟨_, hb⟩, rfl⟩ := hx'
+          simp only at hb; rw [hb]
+      rw [e1] at e2
+      exact hne (Option.some.inj e2)
+
+/-! non-vacuity: a point matching two overlapping polygons, a missing point, an unmatched polygon -/
+example : join .left [some (1, 1), none, some (9, 9)]
+    [some (.polygon [[(0,0),(4,0),(4,4),(0,4),(0,0)]]), some (.polygon [[(0,0),(2,0),(2,2),(0,2),(0,0)]])]
+    = [(some 0, some 0), (some 0, some 1), (some 1, none), (some 2, none)] := by decide
+
 end SpVerif
